@@ -1,6 +1,7 @@
 PROP = {
     "title": "MapSeq round trip preserves order, attributes, comments and instructions",
     "run_modules": ["RunSeq"],
+    "gen": ["setters", "pure"],
     "n": {"quick": 3000, "thorough": 40000},
     "shards": {"quick": 16, "thorough": 64},
     "level": "proof",
@@ -13,5 +14,5 @@ PROP = {
         "sort.Sort is modelled as Go's insertion sort with Less(i,j) = seq_i <= seq_j; on pairwise distinct sequence numbers (all the theorem needs) every sorting algorithm agrees, ties are never generated because their outcome depends on hash-iteration order",
     ],
     "level_text": "Executable Coq models of the sequence-preserving decoder and encoder, tied to the current /repo on real RawToken streams (decoder: Map, error class, panic; compact encoder: bytes; indented encoder and BeautifyXml: RawToken stream), with machine-checked theorems: the round trip (decode, then Xml / XmlIndent / BeautifyXml with any blank indentation) reproduces the normalised RawToken stream for every document of the property's domain (unbounded; text alone or before child elements), sorting by sequence number recovers document order for every entry order, attributes come back in their original order, BeautifyXml is XmlIndent after NewMapXmlSeq.",
-    "level_note": "Trusted: Coq kernel + vm_compute; encoding/xml tokenizer, fmt and sort as environment; hand-written models validated by correspondence on every run. The defect the machinery found on the pinned tree (text before child elements made the encoders panic in elemListSeq.Less) was repaired by fix 3cc484a; the models follow the repaired code and the theorem covers the full domain. The round-trip theorem is stated for the model's own entry order of the decoded MapSeq (deep permutation invariance of the whole encoder is C16's statement; the sort lemma is proved for every order). XmlCheckIsValid is kept off in the MapSeq cases (C05).",
+    "level_note": "BeautifyXml and NewMapXmlSeq re-translated by go2v on every run and proved to be the compositions the model is stated with (C04_beautify_code, C04_new_map_xml_seq_code); Trusted: Coq kernel + vm_compute; encoding/xml tokenizer, fmt and sort as environment; hand-written models validated by correspondence on every run. The defect the machinery found on the pinned tree (text before child elements made the encoders panic in elemListSeq.Less) was repaired by fix 3cc484a; the models follow the repaired code and the theorem covers the full domain. The round-trip theorem is stated for the model's own entry order of the decoded MapSeq (deep permutation invariance of the whole encoder is C16's statement; the sort lemma is proved for every order). XmlCheckIsValid is kept off in the MapSeq cases (C05).",
 }
